@@ -4,10 +4,10 @@ from __future__ import annotations
 import ast
 
 from sa.absint import Evaluator, all_effects
-from sa.index import AnalysisError
+from sa.index import AnalysisError, walk_no_nested
 from sa.teval import Unknown, teval
 from sa.terms import App, Const, Ref, Sym, cases, cat_parts, dict_pairs, list_items, subterms, substitute
-from . import frozen
+from . import frozen, generic
 
 EXPLANATION = ("abstract evaluation of Signer.sign_envelope (helpers inlined) to the Sig_structure handed to the KMS and the "
                "authentication block appended; protected-header table checked for every algorithm member against the "
@@ -167,6 +167,7 @@ def run(ctx):
             mod=fi.module, node=fi.node, function=fq, expected="return the input envelope / CBORTag(input.tag, dict(input.value))",
             found=f"{[repr(x.value)[:80] for x in rets]}")
     cmd_rules(ctx)
+    dump_options(ctx)
     ecdsa_rules(ctx)
     R.rule("C04-D5 sign path executable with installed cbor2", 1, "no in-place mutation of decoded tag content on the sign path")
     frozen.check(ctx, "C04-D5 sign path executable with installed cbor2", ["suit_generator.cmd_sign", SIGN],
@@ -234,6 +235,11 @@ def cmd_rules(ctx):
         R.check("C04-D4b CLI load/sign/save", list(sl[0].args[2:8]) == want, "CLI options reach the signer parameters in order",
                 mod=main.module, node=d.node, function=ctx.fq(main), expected="key_name, key_id, alg, context, kms_script, already_signed_action",
                 found=repr(sl[0].args[2:8])[:300])
+
+
+def dump_options(ctx):
+    generic.serializer_options(ctx, "C04-D4c serializer options", ("suit_generator.cmd_sign", "ncs.sign_script"), 4,
+                               "the signed output is the input plus one block, byte for byte")
 
 
 def ecdsa_rules(ctx):
